@@ -163,6 +163,21 @@ Example bytes_int_roundtrip_empty_refuted :
 Proof. exact Lemmas.IntBytes.to_bytes_empty_refuted. Qed.
 Print Assumptions bytes_int_roundtrip_empty_refuted.
 
+(* the three round trips together, under the name used in DESIGN.md *)
+Theorem int_bytes_roundtrip : forall n w big b,
+  (exists x, IntBytes.to_bytes (Z.of_N n) 0 big = Ok x /\ IntBytes.to_integer x big = n) /\
+  (w <> 0 -> n < 256 ^ w -> exists x, IntBytes.to_bytes (Z.of_N n) w big = Ok x /\ IntBytes.to_integer x big = n /\
+                                     length x = N.to_nat w) /\
+  (bytes_ok b -> b <> [] ->
+   IntBytes.to_bytes (Z.of_N (IntBytes.to_integer b big)) (N.of_nat (length b)) big = Ok b).
+Proof.
+  intros n w big b. split; [|split].
+  - destruct (Lemmas.IntBytes.to_bytes_auto n big) as (x & A & B & _). exists x; auto.
+  - intros Hw Hn. destruct (Lemmas.IntBytes.to_bytes_fixed n w big Hw Hn) as (x & A & B & C & _). exists x; auto.
+  - exact (Lemmas.IntBytes.to_bytes_to_integer b big).
+Qed.
+Print Assumptions int_bytes_roundtrip.
+
 (* binary strings: int(bin(n)[2:].zfill(pad), 2) = n with CPython's full int() grammar in the model *)
 Theorem binstr_roundtrip : forall n pad,
   IntBytes.int_from_binstr (IntBytes.int_to_binstr n pad) = Ok (Z.of_N n).
@@ -174,6 +189,12 @@ Theorem bytes_binstr_roundtrip : forall b p, bytes_ok b -> b <> [] ->
   IntBytes.bytes_from_binstr (IntBytes.bytes_to_binstr b p) (2 * length b) = Ok b.
 Proof. exact Lemmas.IntBytes.bytes_binstr_roundtrip. Qed.
 Print Assumptions bytes_binstr_roundtrip.
+
+(* FromBinaryStr is far from canonical (it is Python's int(text, 2)): white space, sign, 0b prefix, underscores *)
+Example binstr_noncanonical : IntBytes.int_from_binstr [32; 43; 48; 98; 95; 49; 95; 48; 10] = Ok 2%Z /\
+                              IntBytes.int_to_binstr 2 0 = [49; 48].
+Proof. split; vm_compute; reflexivity. Qed.
+Print Assumptions binstr_noncanonical.
 
 Theorem binstr_errors : forall s pad e,
   (IntBytes.int_from_binstr s = Err e -> e = ValueError) /\
